@@ -57,6 +57,7 @@ def run(tier):
         except Exception:  # noqa: BLE001
             continue
     aligned = [o for o in sets if o["align_values"] and not o["separate_complex_types"] and o["nl"] != "SP" and o["indent"] in (2, 4)]
+    skipped_joined = 0
     for di, (tid, text, d) in enumerate(docs_):
         is_corpus = tid.startswith("corpus")
         use = cover if (quick or is_corpus or tid.startswith("commented")) else sets
@@ -75,6 +76,11 @@ def run(tier):
                 out = impl.fresh_dumps(dd, **kw)
             except Exception as ex:  # noqa: BLE001
                 ck.violation("C16|dumps-raised|%s" % type(ex).__name__, "dumps raised %s" % ex, {"text": text, "opts": o})
+                continue
+            if tid.startswith("commented") and c14.hash_then_open_c_comment(out):
+                # C14's listed finding (a multi-line C comment joined behind a # comment on a keyword line): the tail of the
+                # comment is no comment line any more; comment lines are outside C16's per-line rules, so not judged here
+                skipped_joined += 1
                 continue
             try:
                 lines, bad, problems = optrun.layout_lines(out, o)
@@ -101,4 +107,4 @@ def run(tier):
                          "layout clause %s violated (options %s)" % (clause, o), {"text": text if len(text) < 5000 else rid, "opts": o, "printed": out[:3000]})
     ck.sample({"tid": records[0]["tid"], "opts": records[0]["opts"], "lines": records[0]["lines"][:4]})
     return ck.finish(coverage_extra={"option_sets_enumerated": len(sets), "option_sets_used": len(cover) if quick else len(sets),
-                                     "documents": len(docs_), "traces_validated_against_impl": len(verdicts)})
+                                     "documents": len(docs_), "commented_outputs_skipped_joined_comment": skipped_joined, "traces_validated_against_impl": len(verdicts)})
